@@ -170,9 +170,108 @@ def gen_case(rng, fam, mk):
     return {"spec": sp, "q": q, "z": z, "mom": mom, "coeff": float(rng.choice(COEFFS))}
 
 
+def derived_metric_section(ctx, rng):
+    """Metrics obtained as scalar multiples / inverses of matrices whose lazy factors were already computed, and
+    metrics re-assigned after construction (what the metric adapters do): L L^T must equal the CURRENT metric."""
+    import mici
+    from mici import matrices as mm
+
+    def base_objects(n):
+        L = np.tril(np.array(zoo.dymat(rng, n, n, -1, 1, 4)))
+        L[np.diag_indices(n)] = [zoo.dy(rng, 1, 2, 4) for _ in range(n)]
+        A = L @ L.T
+        d = np.array([float(rng.choice([0.5, 1.0, 2.0, 4.0])) for _ in range(n)])
+        return [
+            ("dense", mm.DensePositiveDefiniteMatrix(A.copy()), A),
+            ("dense.inv", mm.DensePositiveDefiniteMatrix(A.copy()).inv, np.linalg.inv(A)),
+            ("trifac", mm.TriangularFactoredPositiveDefiniteMatrix(L.copy(), factor_is_lower=True), A),
+            ("diag", mm.PositiveDiagonalMatrix(d.copy()), np.diag(d)),
+            ("diag.inv", mm.PositiveDiagonalMatrix(d.copy()).inv, np.diag(1 / d)),
+            ("block", mm.PositiveDefiniteBlockDiagonalMatrix([mm.DensePositiveDefiniteMatrix(A.copy()), mm.PositiveDiagonalMatrix(d.copy())]),
+             np.block([[A, np.zeros((n, n))], [np.zeros((n, n)), np.diag(d)]])),
+        ]
+
+    touches = ["sqrt", "inv", "log_abs_det", "eigval", "array", "T"]
+    for _ in range(ctx.n(40, 600)):
+        n = int(rng.integers(2, 4))
+        name, M, A = base_objects(n)[int(rng.integers(6))]
+        order = [touches[i] for i in rng.permutation(len(touches))[: int(rng.integers(0, 4))]]
+        s = float(rng.choice([0.25, 0.5, 2.0, 5.0]))
+        form = str(rng.choice(["s*M", "M/s", "(s*M).inv", "M.inv*s"]))
+        case = {"derived_metric": name, "touch_first": order, "form": form, "s": s, "A": A.tolist()}
+        try:
+            for t in order:
+                getattr(M, t)
+            if form == "s*M":
+                metric, want = s * M, s * A
+            elif form == "M/s":
+                metric, want = M / s, A / s
+            elif form == "(s*M).inv":
+                metric, want = (s * M).inv, np.linalg.inv(s * A)
+            else:
+                metric, want = M.inv * s, np.linalg.inv(A) * s
+            dim = want.shape[0]
+            system = mici.systems.EuclideanMetricSystem(lambda q: 0.5 * float(q @ q), metric=metric, grad_neg_log_dens=lambda q: 1.0 * q)
+            Lm = recover_L(system, [0.0] * dim, dim)
+        except Exception as e:  # noqa: BLE001
+            ctx.violation(f"derived metric {name} {form} foreign exception", f"{type(e).__name__}: {e} ({case})", {"derived_case": case})
+            continue
+        ctx.case(case, nontrivial=bool(order))
+        ctx.count(f"derived:{name}:{form}")
+        err = float(np.max(np.abs(Lm @ Lm.T - want)))
+        if not err <= 1e-9 * (1 + float(np.max(np.abs(want)))):
+            ctx.violation(f"sample_momentum covariance derived metric {name} {form}",
+                          f"metric = {form} of a {name} matrix after touching {order}: L L^T differs from the metric by {err:.3e}",
+                          {"derived_case": case})
+    # re-assigned metric -------------------------------------------------------------------------
+    for _ in range(ctx.n(20, 300)):
+        n = int(rng.integers(2, 4))
+        objs = base_objects(n)[:5]
+        (n1, M1, A1), (n2, M2, A2) = objs[int(rng.integers(5))], objs[int(rng.integers(5))]
+        fam = str(rng.choice(["EuclideanMetricSystem", "GaussianEuclideanMetricSystem"]))
+        case = {"reassigned_metric": [n1, n2], "system": fam, "A2": A2.tolist()}
+        try:
+            system = getattr(mici.systems, fam)(lambda q: 0.5 * float(q @ q), metric=M1, grad_neg_log_dens=lambda q: 1.0 * q)
+            recover_L(system, [0.0] * n, n)
+            system.metric = M2
+            Lm = recover_L(system, [0.0] * n, n)
+        except Exception as e:  # noqa: BLE001
+            ctx.violation("reassigned metric foreign exception", f"{type(e).__name__}: {e} ({case})", {"reassign_case": case})
+            continue
+        ctx.case(case)
+        ctx.count("reassigned_metric")
+        err = float(np.max(np.abs(Lm @ Lm.T - A2)))
+        if not err <= 1e-9 * (1 + float(np.max(np.abs(A2)))):
+            ctx.violation("sample_momentum covariance after metric reassignment",
+                          f"{fam}: after `system.metric = <{n2}>` sample_momentum still has L L^T != current metric (err {err:.3e})",
+                          {"reassign_case": case})
+    # through the real metric adapters
+    for adapter_cls in (mici.adapters.OnlineVarianceMetricAdapter, mici.adapters.OnlineCovarianceMetricAdapter):
+        n = 3
+        system = mici.systems.EuclideanMetricSystem(lambda q: 0.5 * float(q @ q), grad_neg_log_dens=lambda q: 1.0 * q)
+
+        class T:
+            pass
+
+        T.system = system
+        ad = adapter_cls()
+        st = new_state([0.5, -0.25, 1.0], [0.1, 0.2, 0.3])
+        astate = ad.initialize(st, T)
+        for k in range(6):
+            ad.update(astate, new_state([float(k), float(k * k % 5), float(-k) / 2]), {}, T)
+        ad.finalize(astate, st, T, ScriptGen(np.array([1.0, 0.0, 0.0])))
+        Lm = recover_L(system, [0.0] * n, n)
+        want = np.asarray(system.metric.array, dtype=float)
+        ctx.case({"adapter_metric": adapter_cls.__name__})
+        if not float(np.max(np.abs(Lm @ Lm.T - want))) <= 1e-9 * (1 + float(np.max(np.abs(want)))):
+            ctx.violation("sample_momentum covariance after metric adaptation",
+                          f"after {adapter_cls.__name__}.finalize sample_momentum has L L^T != system.metric", {"adapter": adapter_cls.__name__})
+
+
 def run(ctx: common.Ctx):
     rng = common.rng_for(ctx)
     replay_corpus(ctx)
+    derived_metric_section(ctx, common.rng_for(ctx, 7))
     ctx.rule = (
         "all 10 system families of the C05 zoo; constant-metric families x 11 metric matrix types (identity, diagonal, "
         "dense, scaled identity, triangular-factored, eigendecomposed, block diagonal, low-rank update and downdate, "
@@ -254,6 +353,10 @@ def run(ctx: common.Ctx):
 
 
 def replay(ctx, obj):  # noqa: ARG001
+    if "case" not in obj:  # derived / re-assigned metric families: re-run that section
+        sub = common.Ctx(ctx.prop, ctx.tier, ctx.seed)
+        derived_metric_section(sub, common.rng_for(sub, 7))
+        return any(v["signature"] == obj.get("signature") for v in sub.violations)
     case = obj["case"]
     try:
         bad, _ = oracle_case(case["spec"], case["q"], case["z"], case["mom"], case["coeff"])
